@@ -72,10 +72,13 @@ func (d *demux) isClosed() bool {
 }
 
 func (d *demux) Chain(filter framesFilter) *demux {
-	if d.isClosed() {
-		panic("demux closed")
-	}
 	next := newDemux()
+	if d.isClosed() {
+		// The source is gone (e.g. the TNC link was lost while a frame was still queued):
+		// hand out a demux that is already closed instead of crashing the process.
+		next.Close()
+		return next
+	}
 	filtered, cancel := d.Frames(0, filter)
 	go func() {
 		defer cancel()
@@ -137,7 +140,9 @@ func (d *demux) Frames(bufSize int, filter framesFilter) (filtered <-chan frame,
 	d.mu.Lock()
 	defer d.mu.Unlock()
 	if d.closed {
-		return nil, func() {}
+		c := make(chan frame)
+		close(c)
+		return c, func() {}
 	}
 	req := newFramesReq(bufSize, filter)
 	req.once = false
